@@ -52,7 +52,7 @@ def canonTensor (t : Tensor) : Option (Bool × Tensor) :=
   | .sym =>
     let u := (sortS t.upper).1
     let l := (sortS t.lower).1
-    if t.bk != 0 && u.length == l.length && needSwap u l then
+    if (t.bk == 1 || t.bk == -1) && u.length == l.length && needSwap u l then
       some (t.bk == -1, { t with upper := l, lower := u })
     else some (false, { t with upper := u, lower := l })
   | _ =>   -- asym, ampl
@@ -61,7 +61,7 @@ def canonTensor (t : Tensor) : Option (Bool × Tensor) :=
       let u := sortS t.upper
       let l := sortS t.lower
       let s := xor u.2 l.2
-      if t.bk != 0 && u.1.length == l.1.length && needSwap u.1 l.1 then
+      if (t.bk == 1 || t.bk == -1) && u.1.length == l.1.length && needSwap u.1 l.1 then
         some (xor s (t.bk == -1), { t with upper := l.1, lower := u.1 })
       else some (s, { t with upper := u.1, lower := l.1 })
 
